@@ -94,6 +94,7 @@ func (gw *exclusiveGateway) run(ctx context.Context, sender tracing.ISenderHandl
 		case msg := <-gw.mch:
 			switch m := msg.(type) {
 			case gatewayProbingReport:
+				verifAt("xor.report")
 				if response, ok := gw.probing[m.flowId]; ok {
 					if response == nil {
 						// Reschedule, there's no next action yet
